@@ -13,7 +13,7 @@ git -C /repo worktree remove --force "$W" >/dev/null 2>&1
 git -C /repo worktree add -q "$W" HEAD || exit 3
 demo=$src/demo_$X.c
 srcs=$(grep -h "cc .*demo_$X" "$src/notes.md" | head -1 | tr ' ' '\n' | grep "/src/.*\.c$" | sed "s#/tmp/wt_[A-Z0-9]*#$W#" | tr '\n' ' ')
-extra=$(grep -h "cc .*demo_$X" "$src/notes.md" | head -1 | tr ' ' '\n' | grep -E "^-fsanitize|^-g$|^-O" | tr '\n' ' ')
+extra=$(grep -h "cc .*demo_$X" "$src/notes.md" | head -1 | tr ' ' '\n' | grep -E "^-fsanitize|^-g$|^-O|^-D" | tr '\n' ' ')
 [ -z "$srcs" ] && { echo "cannot find compile line for demo_$X in notes.md"; srcs="$W/src/a.c"; }
 cxx=""; grep -h "cc .*demo_$X" "$src/notes.md" | head -1 | grep -q -- "-x c++" && cxx=1
 compile() { # $1 = output
